@@ -391,7 +391,8 @@ func connKey(opts common.Options) uint64 {
 	}
 	_, _ = h.WriteString("\x00")
 
-	if len(opts.InitPayload) > 0 {
+	// a non-nil empty payload is sent as "payload":{} in connection_init, no payload is not
+	if opts.InitPayload != nil {
 		if data, err := json.Marshal(opts.InitPayload); err == nil {
 			_, _ = h.Write(data)
 		}
